@@ -27,11 +27,23 @@ Definition fs_has (f : fsys) (n : fname) : bool := match fs_get f n with Some _ 
 Record tobj := mkObj { o_name : fname; o_fromdoc : bool; o_lo : N; o_hi : N }.
 Inductive ftask := FNone | FBegin | FSwap (n : nat) (ts : list table) | FEnd.
 Inductive ctask := CNone | CBegin | CIter | CSwap (added : list fname) | CEnd.
+(* one neighbour's answer to NeedsTable *)
+Inductive nbans :=
+| AClean    (* "not needed", no error *)
+| AClaim    (* "needed" *)
+| AErr      (* the call fails *)
+| ANever    (* the call never answers by itself (it returns an error once the caller cancels it) *)
+| ALive     (* the truthful answer of the other live objects (DB.NeedsTable); a crashed member of the assembly: error *)
+| AOp.      (* the same through the real Operator.HandleNeedsTable: deployed answers, not deployed = error *)
 Inductive nbmode := NbNone | NbNeeds | NbErr
   | NbLive (* every other live object answers truthfully (DB.NeedsTable); a crashed member of the same assembly cannot answer: error *)
-  | NbOp.  (* the neighbours are the other operators of the assembly (the objects restored with NbOp), asked through the real
+  | NbOp   (* the neighbours are the other operators of the assembly (the objects restored with NbOp), asked through the real
               Operator.HandleNeedsTable: a deployed (live) one answers from its database, a registered but not deployed one (its
               process crashed, awaiting redeploy) cannot answer - the RPC fails - which must mean keep *)
+  | NbSeq (answers : list nbans).  (* several neighbours whose answers arrive in this order *)
+Definition nb_has (a : nbans -> bool) (m : nbmode) : bool := match m with NbSeq l => existsb a l | _ => false end.
+Definition nb_live_member (m : nbmode) : bool := match m with NbLive => true | _ => nb_has (fun a => match a with ALive => true | _ => false end) m end.
+Definition nb_op_member (m : nbmode) : bool := match m with NbOp => true | _ => nb_has (fun a => match a with AOp => true | _ => false end) m end.
 Inductive dstate := Live | Crashed | Dropped.
 Record ckrec := mkCk { c_id : N; c_tabs : list table; c_wal : fname; c_content : list entry; c_after : N; c_lastseq : N;
                        c_xw : list fname (* further WAL handles: a composite checkpoint restored from several instances *) }.
@@ -161,6 +173,21 @@ Definition needs_table (x : wdb) (n : fname) : bool :=
 (* does the cleanup of object o of database x delete the file?  Created tables: always.  Tables from a document: when
    ExclusivelyOwnsTable answers (true, nil): AllDataOwnership, or no neighbour needs it and none failed (after repair D10 an
    error keeps the file; after repair D36 no key-range shortcut skips the question). *)
+(* the truthful neighbours: some live object references the file in a checkpoint of its list, or a member of the assembly is gone *)
+Definition live_keeps (w : world) (n : fname) : bool :=
+  existsb (fun y => (is_live y && needs_table y n)
+                    || (match x_state y with Crashed => nb_live_member (x_nb y) | _ => false end)) (g_dbs w).
+Definition op_keeps (w : world) (n : fname) : bool :=
+  existsb (fun y => nb_op_member (x_nb y) && ((is_live y && needs_table y n) || (match x_state y with Crashed => true | _ => false end))) (g_dbs w).
+(* an answer after which the file may still be deleted: a clean "not needed" *)
+Definition ans_clean (w : world) (n : fname) (a : nbans) : bool :=
+  match a with
+  | AClean => true
+  | AClaim | AErr | ANever => false
+  | ALive => negb (live_keeps w n)
+  | AOp => negb (op_keeps w n)
+  end.
+
 Definition cleanup_deletes (w : world) (x : wdb) (o : tobj) : bool :=
   if negb (o_fromdoc o) then true else
   match x_own x with
@@ -171,11 +198,9 @@ Definition cleanup_deletes (w : world) (x : wdb) (o : tobj) : bool :=
       | NbNone => true
       | NbNeeds => false
       | NbErr => false
-      | NbLive => negb (existsb (fun y => (is_live y && needs_table y (o_name o))
-                                          || (match x_state y, x_nb y with Crashed, NbLive => true | _, _ => false end)) (g_dbs w))
-      | NbOp => negb (existsb (fun y => match x_nb y with
-                                        | NbOp => (is_live y && needs_table y (o_name o)) || (match x_state y with Crashed => true | _ => false end)
-                                        | _ => false end) (g_dbs w))
+      | NbLive => negb (live_keeps w (o_name o))
+      | NbOp => negb (op_keeps w (o_name o))
+      | NbSeq l => forallb (ans_clean w (o_name o)) l
       end
   end.
 
